@@ -1,7 +1,7 @@
 (* C17 — the wire codec round-trips on the model's own observations, hence the theorem about
    exactly the two functions the driver runs: [prop_case inp (run_case inp) = 0] for every input. *)
 From Coq Require Import List ZArith Bool Lia.
-From Verif Require Import Lib.Wire C17.Model C17.Spec C17.Codec C17.Proofs_frame C17.Proofs_trace C17.Proofs.
+From Verif Require Import Lib.Wire C17.Model C17.Spec C17.Codec C17.Proofs_ver C17.Proofs_frame C17.Proofs_trace C17.Proofs.
 Import ListNotations.
 Open Scope Z_scope.
 
@@ -63,12 +63,12 @@ Proof.
 Qed.
 
 (* every observation of a history carries the constant part of the initial job *)
-Lemma obs_consts fx ops : forall s o, In o (obs_from fx s ops) -> consts (o_job o) = consts (sj s).
+Lemma obs_consts fx ops : forall s o, W s -> In o (obs_from fx s ops) -> consts (o_job o) = consts (sj s).
 Proof.
-  induction ops as [|op t IH]; intros s o I; [destruct I|].
+  induction ops as [|op t IH]; intros s o HW I; [destruct I|].
   rewrite obs_from_cons in I. destruct I as [<-|I].
-  - cbn [obs_of o_job]. apply step_consts.
-  - rewrite (IH _ _ I). apply step_consts.
+  - cbn [obs_of o_job]. apply step_consts; auto.
+  - rewrite (IH _ _ (W_step fx s op HW) I). apply step_consts; auto.
 Qed.
 
 Lemma eq_listZ_refl l : eq_listZ l l = true.
@@ -89,5 +89,5 @@ Proof.
     destruct ((prop_code j0 ops (observe j0 ops) =? 7) && _); [discriminate|].
     destruct (prop_code j0 ops (observe j0 ops) =? 8) eqn:E; [apply Z.eqb_eq; exact E|discriminate].
   - intros o I. unfold observe in I. rewrite observe_fx_eq in I.
-    apply (obs_consts _ _ _ _ I).
+    apply (obs_consts _ _ _ _ (W_init j0) I).
 Qed.
